@@ -127,6 +127,9 @@ fn main() {
                     "exhaust"
                 } else if c % 10 == 3 {
                     "tablewrap"
+                } else if c % 10 == 5 || c % 10 == 9 {
+                    // ephemeral range shrunk to 1..5 ports: wrap-around and exhaustion everywhere
+                    "tiny"
                 } else if c % 10 == 7 {
                     // abandoned handshakes in the middle of the history (finding F-C17-1 lives here)
                     "tablez"
@@ -152,6 +155,7 @@ fn main() {
             "tablez" => table::gen_table_case(&mut crng, &mut tstats, 40, false, true),
             "tablewrap" => table::gen_table_case(&mut crng, &mut tstats, 30, true, false),
             "exhaust" => table::gen_exhaust_case(&mut crng, &mut tstats),
+            "tiny" => table::gen_tiny_case(&mut crng, &mut tstats),
             f => rules::gen_case(f, &mut crng, &mut rstats),
         }));
         writeln!(w, "CASE {c} family={family} seed={case_seed}").unwrap();
